@@ -44,7 +44,15 @@ _Bool nondet_bool (void); int nondet_int (void); unsigned nondet_uint (void);
 int verif_stub_reader_get_current_type (const DBusTypeReader *reader)
 {
   PRE (reader != NULL && __CPROVER_r_ok (reader, sizeof (DBusTypeReader)), "_dbus_type_reader_get_current_type: a reader");
-  if (reader == verif_reader) { PRE (VERIF_CUR_OK (verif_cur_r), "_dbus_type_reader_get_current_type: initialised reader"); return verif_cur_r; }
+  if (reader == verif_reader)
+    {
+      PRE (VERIF_CUR_OK (verif_cur_r), "_dbus_type_reader_get_current_type: initialised reader");
+#ifdef VERIF_CASE
+      /* case split (not a contract clause): this unit covers the executions in which the loop head sees a code of its class */
+      __CPROVER_assume (verif_cur_r == DBUS_TYPE_INVALID || VERIF_CASE (verif_cur_r));
+#endif
+      return verif_cur_r;
+    }
   PRE (VERIF_CUR_OK (verif_cur_s), "_dbus_type_reader_get_current_type: initialised sub reader");
   return verif_cur_s;
 }
@@ -136,7 +144,7 @@ int verif_stub_first_type_in_signature (const DBusString *str, int pos)
 
 dbus_uint32_t verif_stub_unpack_uint32 (int byte_order, const unsigned char *data)
 {
-  PRE (OFF (data) % 4 == 0, "_dbus_unpack_uint32: _DBUS_ALIGN_ADDRESS (data, 4) == data");
+  PRE ((__CPROVER_POINTER_OFFSET (data) & 3) == 0, "_dbus_unpack_uint32: _DBUS_ALIGN_ADDRESS (data, 4) == data");
   PRE (__CPROVER_same_object (data, verif_base) && OFF (data) >= verif_p0_off && OFF (data) + 4 <= verif_end_off, "_dbus_unpack_uint32: the 4 bytes lie inside [p, end)");
   PRE (__CPROVER_r_ok (data, 4), "_dbus_unpack_uint32: 4 readable bytes");
   return nondet_uint ();
@@ -156,6 +164,8 @@ DBusValidity verif_stub_validate_signature (const DBusString *type_str, int type
 {
   VALIDATOR_PRE (type_str, type_pos, len, "_dbus_validate_signature_with_reason");
   PRE (len <= verif_cs_len - type_pos, "_dbus_validate_signature_with_reason: range inside the string");
+  /* C16.sig.depth proves this validator memory-safe on a string object of len + 1 bytes (no NUL assumed): require exactly that */
+  PRE (__CPROVER_r_ok (verif_cs_ptr + type_pos, (long) len + 1) && OFF (verif_cs_ptr) + type_pos + len + 1 <= verif_end_off, "_dbus_validate_signature_with_reason: [start, start + len] (len + 1 bytes) readable and below end");
   DBusValidity v = (DBusValidity) nondet_int ();
   __CPROVER_assume (IMP (v == DBUS_VALID, len <= DBUS_MAXIMUM_SIGNATURE_LENGTH));
   if (v == DBUS_VALID && len > 0) __CPROVER_assume (VERIF_SIG_FIRST (verif_cs_ptr[type_pos]));
